@@ -6320,7 +6320,11 @@ unsigned char * SZ_compress_float_2D_MDQ_nonblocked_with_blocked_regression(floa
 
 	unsigned int meta_data_offset = 3 + 1 + MetaDataByteLength;
 	// total size 										metadata		  # elements   real precision		intervals	nodeCount		huffman 	 	block index 						unpredicatable count						mean 					 	unpred size 				elements
-	unsigned char * result = (unsigned char *) calloc(meta_data_offset + exe_params->SZ_SIZE_TYPE + sizeof(float) + sizeof(int) + sizeof(int) + 5*treeByteSize + 3*num_blocks*sizeof(int) + num_blocks * sizeof(unsigned short) + num_blocks * sizeof(unsigned short) + num_blocks * sizeof(float) + total_unpred * sizeof(float) + num_elements * sizeof(int), 1);
+	unsigned char * result = (unsigned char *) calloc(meta_data_offset + exe_params->SZ_SIZE_TYPE + sizeof(float) + sizeof(int) + sizeof(int) + 5*treeByteSize + 3*num_blocks*sizeof(int) + num_blocks * sizeof(unsigned short) + num_blocks * sizeof(unsigned short) + num_blocks * sizeof(float) + total_unpred * sizeof(float) + num_elements * sizeof(int)
+	/*the (up to four) regression-coefficient sections, each: precision, radius, tree size, node count, tree (at most 13 bytes per node,
+	  at most 2*reg_count nodes), size field, codes, unpredictable count and values (reg_count <= num_blocks); together with the unpredictable-data
+	  count and the 8-byte stores of encode() they are not covered by the terms above, which only matters for arrays of a few blocks*/
+	+ 4*(48 + 40*num_blocks) + 2*sizeof(size_t), 1);
 	unsigned char * result_pos = result;
 	initRandomAccessBytes(result_pos);
 	result_pos += meta_data_offset;
@@ -7417,7 +7421,11 @@ unsigned char * SZ_compress_float_3D_MDQ_nonblocked_with_blocked_regression(floa
 
 	unsigned int meta_data_offset = 3 + 1 + MetaDataByteLength;
 	// total size 										metadata		  # elements     real precision		intervals	nodeCount		huffman 	 	block index 						unpredicatable count						mean 					 	unpred size 				elements
-	unsigned char * result = (unsigned char *) calloc(meta_data_offset + exe_params->SZ_SIZE_TYPE + sizeof(float) + sizeof(int) + sizeof(int) + 5*treeByteSize + 4*num_blocks*sizeof(int) + num_blocks * sizeof(unsigned short) + num_blocks * sizeof(unsigned short) + num_blocks * sizeof(float) + total_unpred * sizeof(float) + num_elements * sizeof(int), 1);
+	unsigned char * result = (unsigned char *) calloc(meta_data_offset + exe_params->SZ_SIZE_TYPE + sizeof(float) + sizeof(int) + sizeof(int) + 5*treeByteSize + 4*num_blocks*sizeof(int) + num_blocks * sizeof(unsigned short) + num_blocks * sizeof(unsigned short) + num_blocks * sizeof(float) + total_unpred * sizeof(float) + num_elements * sizeof(int)
+	/*the (up to four) regression-coefficient sections, each: precision, radius, tree size, node count, tree (at most 13 bytes per node,
+	  at most 2*reg_count nodes), size field, codes, unpredictable count and values (reg_count <= num_blocks); together with the unpredictable-data
+	  count and the 8-byte stores of encode() they are not covered by the terms above, which only matters for arrays of a few blocks*/
+	+ 4*(48 + 40*num_blocks) + 2*sizeof(size_t), 1);
 	unsigned char * result_pos = result;
 	initRandomAccessBytes(result_pos);
 
@@ -8085,7 +8093,11 @@ unsigned char * SZ_compress_float_3D_MDQ_random_access_with_blocked_regression(f
 
 	unsigned int meta_data_offset = 3 + 1 + MetaDataByteLength;
 	// total size 										metadata		  # elements     real precision		intervals	nodeCount		huffman 	 	block index 						unpredicatable count						mean 					 	unpred size 				elements
-	unsigned char * result = (unsigned char *) calloc(meta_data_offset + exe_params->SZ_SIZE_TYPE + sizeof(double) + sizeof(int) + sizeof(int) + 5*treeByteSize + 4*num_blocks*sizeof(int)+ num_blocks * sizeof(unsigned short) + num_blocks * sizeof(unsigned short) + num_blocks * sizeof(float) + total_unpred * sizeof(float) + num_elements * sizeof(int), 1);
+	unsigned char * result = (unsigned char *) calloc(meta_data_offset + exe_params->SZ_SIZE_TYPE + sizeof(double) + sizeof(int) + sizeof(int) + 5*treeByteSize + 4*num_blocks*sizeof(int)+ num_blocks * sizeof(unsigned short) + num_blocks * sizeof(unsigned short) + num_blocks * sizeof(float) + total_unpred * sizeof(float) + num_elements * sizeof(int)
+	/*the (up to four) regression-coefficient sections, each: precision, radius, tree size, node count, tree (at most 13 bytes per node,
+	  at most 2*reg_count nodes), size field, codes, unpredictable count and values (reg_count <= num_blocks); together with the unpredictable-data
+	  count and the 8-byte stores of encode() they are not covered by the terms above, which only matters for arrays of a few blocks*/
+	+ 4*(48 + 40*num_blocks) + 2*sizeof(size_t), 1);
 	unsigned char * result_pos = result;
 	initRandomAccessBytes(result_pos);
 
@@ -8609,7 +8621,11 @@ unsigned char * SZ_compress_float_1D_MDQ_decompression_random_access_with_blocke
 
 	unsigned int meta_data_offset = 3 + 1 + MetaDataByteLength;
 	// total size 										metadata		  # elements     real precision		intervals	nodeCount		huffman 	 	block index 						unpredicatable count						mean 					 	unpred size 				elements
-	unsigned char * result = (unsigned char *) calloc(meta_data_offset + exe_params->SZ_SIZE_TYPE + sizeof(double) + sizeof(int) + sizeof(int) + 5*treeByteSize +4*num_blocks*sizeof(int) + num_blocks * sizeof(unsigned short) + num_blocks * sizeof(unsigned short) + num_blocks * sizeof(float) + total_unpred * sizeof(float) + num_elements * sizeof(int), 1);
+	unsigned char * result = (unsigned char *) calloc(meta_data_offset + exe_params->SZ_SIZE_TYPE + sizeof(double) + sizeof(int) + sizeof(int) + 5*treeByteSize +4*num_blocks*sizeof(int) + num_blocks * sizeof(unsigned short) + num_blocks * sizeof(unsigned short) + num_blocks * sizeof(float) + total_unpred * sizeof(float) + num_elements * sizeof(int)
+	/*the (up to four) regression-coefficient sections, each: precision, radius, tree size, node count, tree (at most 13 bytes per node,
+	  at most 2*reg_count nodes), size field, codes, unpredictable count and values (reg_count <= num_blocks); together with the unpredictable-data
+	  count and the 8-byte stores of encode() they are not covered by the terms above, which only matters for arrays of a few blocks*/
+	+ 4*(48 + 40*num_blocks) + 2*sizeof(size_t), 1);
 	unsigned char * result_pos = result;
 	initRandomAccessBytes(result_pos);
 
@@ -9254,7 +9270,11 @@ unsigned char * SZ_compress_float_2D_MDQ_decompression_random_access_with_blocke
 
 	unsigned int meta_data_offset = 3 + 1 + MetaDataByteLength;
 	// total size 										metadata		  # elements     real precision		intervals	nodeCount		huffman 	 	block index 						unpredicatable count						mean 					 	unpred size 				elements
-	unsigned char * result = (unsigned char *) calloc(meta_data_offset + exe_params->SZ_SIZE_TYPE + sizeof(double) + sizeof(int) + sizeof(int) + 5*treeByteSize + 4*num_blocks*sizeof(int) +num_blocks * sizeof(unsigned short) + num_blocks * sizeof(unsigned short) + num_blocks * sizeof(float) + total_unpred * sizeof(float) + num_elements * sizeof(int), 1);
+	unsigned char * result = (unsigned char *) calloc(meta_data_offset + exe_params->SZ_SIZE_TYPE + sizeof(double) + sizeof(int) + sizeof(int) + 5*treeByteSize + 4*num_blocks*sizeof(int) +num_blocks * sizeof(unsigned short) + num_blocks * sizeof(unsigned short) + num_blocks * sizeof(float) + total_unpred * sizeof(float) + num_elements * sizeof(int)
+	/*the (up to four) regression-coefficient sections, each: precision, radius, tree size, node count, tree (at most 13 bytes per node,
+	  at most 2*reg_count nodes), size field, codes, unpredictable count and values (reg_count <= num_blocks); together with the unpredictable-data
+	  count and the 8-byte stores of encode() they are not covered by the terms above, which only matters for arrays of a few blocks*/
+	+ 4*(48 + 40*num_blocks) + 2*sizeof(size_t), 1);
 	unsigned char * result_pos = result;
 	initRandomAccessBytes(result_pos);
 
@@ -10003,7 +10023,11 @@ unsigned char * SZ_compress_float_3D_MDQ_decompression_random_access_with_blocke
 
 	unsigned int meta_data_offset = 3 + 1 + MetaDataByteLength;
 	// total size 										metadata		  # elements     real precision		intervals	nodeCount		huffman 	 	block index 						unpredicatable count						mean 					 	unpred size 				elements
-	unsigned char * result = (unsigned char *) calloc(meta_data_offset + exe_params->SZ_SIZE_TYPE + sizeof(double) + sizeof(int) + sizeof(int) + 5*treeByteSize + 4*num_blocks*sizeof(int)+num_blocks * sizeof(unsigned short) + num_blocks * sizeof(unsigned short) + num_blocks * sizeof(float) + total_unpred * sizeof(float) + num_elements * sizeof(int), 1);
+	unsigned char * result = (unsigned char *) calloc(meta_data_offset + exe_params->SZ_SIZE_TYPE + sizeof(double) + sizeof(int) + sizeof(int) + 5*treeByteSize + 4*num_blocks*sizeof(int)+num_blocks * sizeof(unsigned short) + num_blocks * sizeof(unsigned short) + num_blocks * sizeof(float) + total_unpred * sizeof(float) + num_elements * sizeof(int)
+	/*the (up to four) regression-coefficient sections, each: precision, radius, tree size, node count, tree (at most 13 bytes per node,
+	  at most 2*reg_count nodes), size field, codes, unpredictable count and values (reg_count <= num_blocks); together with the unpredictable-data
+	  count and the 8-byte stores of encode() they are not covered by the terms above, which only matters for arrays of a few blocks*/
+	+ 4*(48 + 40*num_blocks) + 2*sizeof(size_t), 1);
 	unsigned char * result_pos = result;
 	initRandomAccessBytes(result_pos);
 
